@@ -28,7 +28,7 @@ def strata(tier):
     out = []
     for name, strat in G.strata_grid(
             maxsizes=(2, 1, 3, None, 0), backends=BACKENDS,
-            weights={'call': 14, 'burst': 1, 'load': 1, 'dump': 1, 'clear': 0, 'clearkeep': 0, 'arch_off': 0, 'arch_on': 0, 'dumpk': 0,
+            weights={'call': 14, 'burst': 1, 'load': 1, 'dump': 1, 'clear': 0, 'clearkeep': 0, 'arch_off': 1, 'arch_on': 1, 'dumpk': 0,
                      'loadk': 0, 'awrite': 1},
             max_ops=14 if tier == 'quick' else 30, min_ops=2, pool=(3, 7), tols=(None, None, 0, 1), deeps=(False, True),
             ignores=(None, None, None, ['y'], [0], ['**']), float_pct=6, prefill_pct=15):
@@ -40,7 +40,7 @@ def strata(tier):
 def with_continuation(draw, strat, tier):
     case = draw(strat)
     w = dict(G.DEFAULT_WEIGHTS)
-    w.update({'call': 14, 'burst': 0, 'load': 1, 'dump': 1, 'clear': 0, 'clearkeep': 0, 'arch_off': 0, 'arch_on': 0, 'dumpk': 0, 'loadk': 0})
+    w.update({'call': 14, 'burst': 0, 'load': 1, 'dump': 1, 'clear': 0, 'clearkeep': 0, 'arch_off': 1, 'arch_on': 2, 'arch_query': 1, 'dumpk': 0, 'loadk': 0})      # archive toggling after the round trip: the clone's parked / attached archive bookkeeping must have survived pickling
     case['cont'] = draw(G.op_lists(w, len(case['pool']), 2, 12 if tier == 'quick' else 25))
     case['cont2'] = draw(G.op_lists({'call': 1}, len(case['pool']), 1, 5))
     return case
